@@ -1,4 +1,52 @@
-// unit `csc_build` : construction / canonicalisation of the compressed-column matrix type (C16)
+// unit `csc_build` : construction and canonicalisation of the compressed-column matrix type against the dense meaning (C16)
+// float model: F-opaque (prelude/float_opaque.rs): `+` on values is the uninterpreted f_add, so "duplicates are summed" is stated
+// as the LEFT FOLD of f_add in storage / input order (gfold, acc) and no algebraic law of + is used anywhere.
+//
+// Dense meaning used throughout:  dense(A, r, c) : Option<F> = the stored values of column c whose row index is r, folded from
+// left to right (None = no stored entry);  tfold(I, J, V, r, c) = the same fold over the triplets (r, c, .) in list order.
+// lemma_cell_stored / lemma_triplet_present: Some <=> a stored entry / a triplet with these coordinates exists.
+//
+// PROVED from the real bodies (src/algebra/csc/core.rs unless noted), all unbounded:
+//   deduplicate        dims consistent + rows nondecreasing per column  =>  Ok; m, n kept; dims_ok, colptr_mono, rows STRICTLY
+//                      increasing per column; rows_in_range kept both ways; dense(final) == dense(old) for every cell; array level
+//                      (dedup_of): slot k moves to slot nheads(k+1)-1, the last slot of each run carries acc = left fold of the run
+//   sort_indices       dims consistent => Ok; exists a permutation that stays inside every column, sorts it by row index and is
+//                      stable (cols_sorted_by); colptr unchanged; rows nondecreasing; dense(final) == dense(old)
+//   canonicalize       Ok <=> dims_ok && colptr_mono of the input (else untouched); on Ok: strictly sorted columns, dense meaning
+//                      unchanged, and canonical(final) <=> all input rows < m   (the row range is NOT checked by the code)
+//   check_dimensions   Ok <=> dims_ok && colptr_mono, error kinds (as in unit csc_core; re-proved here for the composition)
+//   new_from_triplets  STATEMENT SLICE `for &c in J.iter() {` .. `M.colcount_to_colptr();` (column counts, consolidation pass,
+//                      resize, prefix sums) as fn triplets_consolidate(M, I, J, V, n):  dims_ok, colptr_mono, rows strictly increasing,
+//                      rows_in_range <=> all I < m, and dense(result, r, c) == tfold(I, J, V, r, c) for every cell: each stored
+//                      entry is the left-to-right sum of its triplets in INPUT order, every (row, column) of the input is stored
+//                      exactly once and nothing else is.  Proved through: permutation-invariance of the column counts
+//                      (lemma_cnt_perm), consolidation of a sorted column (lemma_dedup_fold), stable sort keeps the order of the
+//                      triplets of one cell (lemma_fold_match)
+//   findnz             I = rowval, V = nzval, J[k] = the column whose pointer range contains k
+//   zeros, identity    canonical; every cell None / cell (c, c) = Some(one), others None
+//   utils.rs invperm   p in range and without repeats => no assert fires, result[p[i]] == i
+//   (from units/inc: new, spalloc, nnz, nrows, ncols, colptr_to_colcount, colcount_to_colptr — callees, proved from their bodies)
+//
+// DROPPED (statement slice): the prefix of new_from_triplets — the two length assert_eq!, spalloc, the identity fill of the
+//   work array, sortperm_by with the capturing comparator J[a].cmp(&J[b]).then(I[a].cmp(&I[b])), the two permute calls — and the
+//   final `M`.  What it establishes is the slice's `requires` (sorted_input): M.rowval = I o p, M.nzval = V o p for a permutation
+//   p (inverse q) that is a STABLE sort by (column, row); M.colptr = [0, .., 0, len]; lengths equal.  witness_sorted_input shows
+//   the statement is satisfiable.  qdldl::permute (x[i] = b[p[i]]) is under contract in unit qdldl_kernels.
+//
+// ASSUMED:
+//   * rule R40: Vec<(usize, T)>::sort_by_key(|&(r, _)| r) is a stable sort by the first component and a permutation
+//     (prelude/sort_assumed.rs: sort_pairs_by_key0, pairs_stably_sorted; std documentation of slice::sort_by_key)
+//   * rule R41: J.extend(repeat(c).take(n)) appends n copies of c (prelude/sort_assumed.rs: vec_extend_repeat)
+//   * the sorting prefix of new_from_triplets (above); all J < n (caller's obligation, see finding 1);
+//     2 * len <= usize::MAX (a Vec<usize> of that length exists, so 8 * len <= isize::MAX; Verus does not know the allocation limit.
+//     It is needed because colcount_to_colptr also adds colptr[n] == len, left there by spalloc, into its running sum)
+//   * float_opaque, std_assumed preludes as in every opaque unit
+//
+// Observations made while stating the contracts (not failures of the proved properties):
+//   1. new_from_triplets does not check the coordinates: a triplet with J[k] == n is counted into colptr[n], never read and
+//      silently dropped by the resize (J[k] > n panics on the index); I[k] >= m is stored as is (result not canonical).
+//   2. utils::invperm's duplicate test `b[*j] == 0` cannot see a repeat of the value p[0] (slot p[0] legitimately holds 0):
+//      invperm(&[1, 1]) returns [0, 1] instead of panicking.
 use vstd::prelude::*;
 verus! {
 //@include prelude/float_opaque.rs
@@ -708,11 +756,11 @@ it0
             forall|c: int, d: int| #[trigger] cd(c, d) && 0 <= c < it0.index@ && self.colptr@[c] <= d && d + 1 < self.colptr@[c + 1] ==> self.rowval@[d] < self.rowval@[d + 1],
             rows_in_range(A0) ==> forall|d: int| 0 <= d < nnz ==> #[trigger] self.rowval@[d] < self.m,
 //@body_start 1
-            let ghost gc = col as int;
+            let ghost gc = $var1 as int;
             proof { lemma_mono2(cp0, gc, gc + 1); lemma_mono2(cp0, gc + 1, self.n as int); lemma_col_start(cp0, gc); }
 //@loop 2
                 invariant
-                    0 <= gc < self.n, self.n == A0.n, self.m == A0.m, col == gc,
+                    0 <= gc < self.n, self.n == A0.n, self.m == A0.m, $var1 == gc,
                     cp0 == A0.colptr@, rv0 == A0.rowval@, nz0 == A0.nzval@, nn == rv0.len(), nn <= usize::MAX, hd == heads_cp(cp0, rv0),
                     dims_ok(A0), mono2(cp0), cp0[0] == 0, rows_nondecr(A0),
                     self.colptr@.len() == cp0.len(), self.rowval@.len() == nn, self.nzval@.len() == nn,
@@ -856,7 +904,7 @@ it0
             self.colptr@ == cp0, self.rowval@.len() == nn, self.nzval@.len() == nn,
             sort_inv(A0, self.rowval@, self.nzval@, gp, gq, it0.index@ as int),
 //@body_start 1
-            let ghost gc = col as int;
+            let ghost gc = $var1 as int;
             let ghost rvS = self.rowval@;
             let ghost nzS = self.nzval@;
             let ghost gp1 = gp;
@@ -1001,7 +1049,7 @@ it1
 //@body_start 1
             let ghost gi = it1.index@ as int;
             let ghost cp1 = M.colptr@;
-            proof { assert(*c_r == J@[gi]); lemma_cnt_bounds(J@, J@[gi] as int, gi); }
+            proof { assert(*$var1 == J@[gi]); lemma_cnt_bounds(J@, J@[gi] as int, gi); }
 //@body_end 1
             proof {
                 assert forall|x: int| 0 <= x < n implies #[trigger] M.colptr@[x] == cnt(J@, x, gi + 1) by {
@@ -1030,7 +1078,7 @@ it2
             forall|c: int, d: int| #[trigger] cd(c, d) && 0 <= c < it2.index@ && nheads(hd, cstart(cs, c)) <= d && d + 1 < nheads(hd, cstart(cs, c + 1)) ==> M.rowval@[d] < M.rowval@[d + 1],
             (forall|k: int| 0 <= k < nn ==> #[trigger] I@[k] < M0.m) ==> forall|d: int| 0 <= d < writeidx ==> #[trigger] M.rowval@[d] < M0.m,
 //@body_start 2
-            let ghost gc = col as int;
+            let ghost gc = $var2 as int;
             let ghost s0 = cstart(cs, gc);
             let ghost s1 = cstart(cs, gc + 1);
             proof {
@@ -1051,7 +1099,7 @@ it3
                     M.n == n, M.m == M0.m, M.colptr@.len() == n + 1, M.rowval@.len() == nn, M.nzval@.len() == nn, nn <= usize::MAX,
                     nn == I@.len(), nn == J@.len(), rv0.len() == nn, nz0.len() == nn, gp.len() == nn, gq.len() == nn, cs == compose(J@, gp), hd == heads_cs(cs, rv0),
                     sorted_input(I@, J@, V@, gp, gq, rv0, nz0), cols_sorted(cs), forall|i: int| 0 <= i < cs.len() ==> #[trigger] cs[i] < n,
-                    0 <= gc < n, col == gc, s0 == cstart(cs, gc), s1 == cstart(cs, gc + 1), 0 <= s0 <= s1 <= nn, nentries == s1 - s0,
+                    0 <= gc < n, $var2 == gc, s0 == cstart(cs, gc), s1 == cstart(cs, gc + 1), 0 <= s0 <= s1 <= nn, nentries == s1 - s0,
                     s0 < s1 ==> hd[s0],
                     readidx == s0 + it3.index@, writeidx == nheads(hd, readidx as int), writeidx <= readidx,
                     M.colptr@[gc] + it3.index@ == nentries + nheads(hd, readidx as int) - nheads(hd, s0),
@@ -1066,7 +1114,7 @@ it3
                     forall|d: int| #[trigger] cd(gc, d) && nheads(hd, s0) <= d && d + 1 < writeidx ==> M.rowval@[d] < M.rowval@[d + 1],
                     (forall|k: int| 0 <= k < nn ==> #[trigger] I@[k] < M0.m) ==> forall|d: int| 0 <= d < writeidx ==> #[trigger] M.rowval@[d] < M0.m,
 //@body_start 3
-                let ghost gj = j as int;
+                let ghost gj = $var3 as int;
                 let ghost r0 = readidx as int;
                 let ghost w0 = writeidx as int;
                 let ghost rv1 = M.rowval@;
@@ -1188,6 +1236,65 @@ it3
         }
 //@end
 
+//@fn file=src/algebra/csc/core.rs in="From<I> for CscMatrix<T>" name=from as=from_rows_fill rules=R1 from="colptr.push(0);" to="for c in 0..n {" header="fn from<T>(rows: &Vec<Vec<T>>, m: usize, n: usize, colptr: &mut Vec<usize>, rowval: &mut Vec<usize>, nzval: &mut Vec<T>)"
+//@contract
+    requires
+        // established by the DROPPED prefix: rows collected into Vec<Vec<T>>, m = number of rows, n = length of the first row,
+        // assert!(all rows have length n), three empty vectors allocated (with_capacity)
+        rows@.len() == m, forall|r: int| 0 <= r < m ==> (#[trigger] rows@[r])@.len() == n,
+        old(colptr)@.len() == 0, old(rowval)@.len() == 0, old(nzval)@.len() == 0,
+    ensures
+        // C16 (construction from rows): the three vectors the dropped struct literal CscMatrix { m, n, colptr, rowval, nzval }
+        // is built from form a canonical matrix whose cell (r, c) is rows[r][c], zeros not stored
+        ({ let A = CscMatrix { m: m, n: n, colptr: *final(colptr), rowval: *final(rowval), nzval: *final(nzval) };
+           canonical(A) && forall|r: int, c: int| 0 <= r < m && 0 <= c < n ==> #[trigger] dense(A, r, c) == row_cell(rows@, r, c) }),
+//@after_stmt 1
+        proof { assert(rows_filled(rows@, m as int, colptr@, rowval@, nzval@, 0)); }
+//@iter 1
+it0
+//@loop 1
+        invariant
+            it0.seq().len() == n, range_from(it0.seq(), 0), rows@.len() == m, forall|r: int| 0 <= r < m ==> (#[trigger] rows@[r])@.len() == n,
+            rows_filled(rows@, m as int, colptr@, rowval@, nzval@, it0.index@ as int), colptr@[it0.index@ as int] == rowval@.len(),
+//@body_start 1
+            let ghost gc = $var1 as int;
+            let ghost s0 = rowval@.len() as int;
+            let ghost cpv = colptr@;
+//@iter 2
+it1
+//@loop 2
+                invariant
+                    it1.seq().len() == m, range_from(it1.seq(), 0), rows@.len() == m, forall|r: int| 0 <= r < m ==> (#[trigger] rows@[r])@.len() == n,
+                    0 <= gc < n, $var1 == gc, colptr@ == cpv, cpv[gc] == s0,
+                    rows_filled(rows@, m as int, cpv, rowval@, nzval@, gc), col_partial(rows@, rowval@, nzval@, gc, s0, it1.index@ as int),
+//@body_start 2
+                let ghost gr = $var2 as int;
+                let ghost rv1 = rowval@;
+                let ghost nz1 = nzval@;
+                proof { assert(rows@[gr]@.len() == n); }
+//@body_end 2
+                proof { lemma_rows_step(rows@, m as int, cpv, rv1, nz1, gc, gr, rowval@, nzval@); }
+//@body_end 1
+            proof {
+                let cp2 = colptr@;
+                assert(cp2 == cpv.push(rowval@.len() as usize));
+                assert forall|i: int| #[trigger] cd(0, i) && 0 <= i < gc + 1 implies cp2[i] <= cp2[i + 1] by { if i < gc { assert(cpv[i] <= cpv[i + 1]); } }
+                assert forall|x: int, q: int| #[trigger] cd(x, q) && 0 <= x < gc + 1 && 0 <= q < m implies colfold(rowval@, nzval@, q, cp2[x] as int, cp2[x + 1] as int) == row_cell(rows@, q, x) by {
+                    if x < gc { assert(cp2[x] == cpv[x] && cp2[x + 1] == cpv[x + 1]); } else { assert(cd(gc, q)); }
+                }
+                assert forall|x: int, k: int| #[trigger] cd(x, k) && 0 <= x < gc + 1 && cp2[x] <= k && k + 1 < cp2[x + 1] implies rowval@[k] < rowval@[k + 1] by {
+                    if x < gc { assert(cp2[x] == cpv[x] && cp2[x + 1] == cpv[x + 1]); } else { assert(cd(gc, k)); }
+                }
+            }
+//@post
+        proof {
+            let A = CscMatrix { m: m, n: n, colptr: *colptr, rowval: *rowval, nzval: *nzval };
+            assert(adj_mono(A.colptr@)) by { reveal(adj_mono); assert forall|i: int| 0 <= i < A.colptr@.len() - 1 implies #[trigger] A.colptr@[i] <= A.colptr@[i + 1] by { assert(cd(0, i)); } }
+            assert forall|x: int, k: int| #[trigger] in_col(A, k, x) && k + 1 < A.colptr@[x + 1] implies A.rowval@[k] < A.rowval@[k + 1] by { assert(cd(x, k)); }
+            assert forall|r: int, x: int| 0 <= r < m && 0 <= x < n implies #[trigger] dense(A, r, x) == row_cell(rows@, r, x) by { assert(cd(x, r)); }
+        }
+//@end
+
 //@fn file=src/algebra/csc/core.rs in="impl<T> CscMatrix<T>" name=findnz rules=R1,R41 ret=r
 //@contract
     requires dims_ok(*self), colptr_mono(*self),
@@ -1206,7 +1313,7 @@ it0
             J@.len() == cp[it0.index@ as int],
             forall|x: int, k: int| #[trigger] in_col(*self, k, x) && x < it0.index@ ==> J@[k] == x,
 //@body_start 1
-            let ghost gc = c as int;
+            let ghost gc = $var1 as int;
             let ghost J1 = J@;
             proof { lemma_mono2(cp, gc, gc + 1); lemma_mono2(cp, gc + 1, self.n as int); }
 //@body_end 1
@@ -1269,6 +1376,75 @@ pub proof fn witness_pairs_sorted(x: F, y: F, z: F)
     lemma_perm_intro(seq![1int, 0, 2], seq![1int, 0, 2], 3);
 }
 
+// ---- construction from rows ----
+// the cell of a dense row-major array: zeros are not stored
+pub open spec fn row_cell(rows: Seq<Vec<F>>, r: int, c: int) -> Option<F> { if f_eq(rows[r]@[c], f_zero()) { None } else { Some(rows[r]@[c]) } }
+pub proof fn lemma_gfold_ext(h1: Seq<bool>, v1: Seq<F>, h2: Seq<bool>, v2: Seq<F>, lo: int, hi: int)
+    requires forall|k: int| lo <= k < hi ==> #[trigger] h1[k] == h2[k] && v1[k] == v2[k],
+    ensures gfold(h1, v1, lo, hi) == gfold(h2, v2, lo, hi),
+    decreases hi - lo,
+{ if hi > lo { lemma_gfold_ext(h1, v1, h2, v2, lo, hi - 1); assert(h1[hi - 1] == h2[hi - 1]); } }
+// the fold over a segment does not see what is appended behind it
+pub proof fn lemma_colfold_push(rv: Seq<usize>, nz: Seq<F>, x: usize, v: F, r: int, lo: int, hi: int)
+    requires 0 <= lo, hi <= rv.len(), rv.len() == nz.len(),
+    ensures colfold(rv.push(x), nz.push(v), r, lo, hi) == colfold(rv, nz, r, lo, hi),
+{
+    let h1 = row_hits(rv.push(x), r); let h2 = row_hits(rv, r);
+    assert forall|k: int| lo <= k < hi implies #[trigger] h1[k] == h2[k] && nz.push(v)[k] == nz[k] by { assert(rv.push(x)[k] == rv[k]); }
+    lemma_gfold_ext(h1, nz.push(v), h2, nz, lo, hi);
+}
+// state of the fill loops of From<rows>: columns before c are complete; of column c the rows before r are done
+pub open spec fn rows_filled(rows: Seq<Vec<F>>, m: int, cp: Seq<usize>, rv: Seq<usize>, nz: Seq<F>, c: int) -> bool {
+    &&& cp.len() == c + 1 && cp[0] == 0 && rv.len() == nz.len() && cp[c] <= rv.len()
+    &&& forall|i: int| #[trigger] cd(0, i) && 0 <= i < c ==> cp[i] <= cp[i + 1]
+    &&& forall|x: int, r: int| #[trigger] cd(x, r) && 0 <= x < c && 0 <= r < m ==> colfold(rv, nz, r, cp[x] as int, cp[x + 1] as int) == row_cell(rows, r, x)
+    &&& forall|x: int, k: int| #[trigger] cd(x, k) && 0 <= x < c && cp[x] <= k && k + 1 < cp[x + 1] ==> rv[k] < rv[k + 1]
+    &&& forall|k: int| 0 <= k < rv.len() ==> #[trigger] rv[k] < m
+}
+pub open spec fn col_partial(rows: Seq<Vec<F>>, rv: Seq<usize>, nz: Seq<F>, c: int, s0: int, r: int) -> bool {
+    &&& forall|k: int| s0 <= k < rv.len() ==> #[trigger] rv[k] < r
+    &&& forall|x: int| #[trigger] cd(c, x) && 0 <= x < r ==> colfold(rv, nz, x, s0, rv.len() as int) == row_cell(rows, x, c)
+    &&& forall|k: int| #[trigger] cd(c, k) && s0 <= k && k + 1 < rv.len() ==> rv[k] < rv[k + 1]
+}
+pub proof fn lemma_rows_mono(cp: Seq<usize>, c: int, a: int, b: int)
+    requires forall|i: int| #[trigger] cd(0, i) && 0 <= i < c ==> cp[i] <= cp[i + 1], 0 <= a <= b <= c,
+    ensures cp[a] <= cp[b],
+    decreases b - a,
+{ if a < b { lemma_rows_mono(cp, c, a, b - 1); assert(cd(0, b - 1)); } }
+// one row of column c handled (value pushed or, being zero, skipped)
+pub proof fn lemma_rows_step(rows: Seq<Vec<F>>, m: int, cp: Seq<usize>, rv: Seq<usize>, nz: Seq<F>, c: int, r: int, rv2: Seq<usize>, nz2: Seq<F>)
+    requires
+        rows_filled(rows, m, cp, rv, nz, c), col_partial(rows, rv, nz, c, cp[c] as int, r), 0 <= r < m <= usize::MAX,
+        (row_cell(rows, r, c) is None && rv2 == rv && nz2 == nz) || (row_cell(rows, r, c) == Some(rows[r]@[c]) && rv2 == rv.push(r as usize) && nz2 == nz.push(rows[r]@[c])),
+    ensures rows_filled(rows, m, cp, rv2, nz2, c), col_partial(rows, rv2, nz2, c, cp[c] as int, r + 1),
+{
+    let s0 = cp[c] as int; let len = rv.len() as int;
+    assert forall|k: int| s0 <= k < len implies !#[trigger] row_hits(rv, r)[k] by { assert(rv[k] < r); }
+    lemma_gfold_none(row_hits(rv, r), nz, s0, len);
+    if row_cell(rows, r, c) is None {
+        assert(cd(c, r));
+    } else {
+        let v = rows[r]@[c];
+        assert forall|x: int, q: int| #[trigger] cd(x, q) && 0 <= x < c && 0 <= q < m implies colfold(rv2, nz2, q, cp[x] as int, cp[x + 1] as int) == row_cell(rows, q, x) by {
+            lemma_rows_mono(cp, c, x + 1, c); lemma_rows_mono(cp, c, 0, x);
+            lemma_colfold_push(rv, nz, r as usize, v, q, cp[x] as int, cp[x + 1] as int);
+        }
+        assert forall|x: int, k: int| #[trigger] cd(x, k) && 0 <= x < c && cp[x] <= k && k + 1 < cp[x + 1] implies rv2[k] < rv2[k + 1] by {
+            lemma_rows_mono(cp, c, x + 1, c); assert(rv[k] < rv[k + 1]);
+        }
+        assert forall|x: int| #[trigger] cd(c, x) && 0 <= x < r + 1 implies colfold(rv2, nz2, x, s0, rv2.len() as int) == row_cell(rows, x, c) by {
+            lemma_colfold_push(rv, nz, r as usize, v, x, s0, len);
+            let h = row_hits(rv2, x);
+            assert(colfold(rv2, nz2, x, s0, len + 1) == fold_step(colfold(rv2, nz2, x, s0, len), h[len], nz2[len]));
+            assert(h[len] == (rv2[len] == x));
+            if x < r { assert(cd(c, x)); }
+        }
+        assert forall|k: int| #[trigger] cd(c, k) && s0 <= k && k + 1 < rv2.len() implies rv2[k] < rv2[k + 1] by {
+            if k + 1 < len { assert(rv[k] < rv[k + 1]); } else { assert(rv[k] < r); }
+        }
+    }
+}
+
 // ---- src/algebra/utils.rs ----
 #[verifier::opaque]
 pub open spec fn injective(p: Seq<usize>) -> bool { forall|i: int, j: int| 0 <= i < j < p.len() ==> #[trigger] p[i] != #[trigger] p[j] }
@@ -1294,8 +1470,8 @@ it
             let ghost gi = it.index@ as int;
             let ghost b1 = b@;
             proof {
-                assert(*j == p@[gi]);
-                if b1[*j as int] != 0 { lemma_injective(p@, b1[*j as int] as int, gi); }
+                assert(*$var1 == p@[gi]);
+                if b1[*$var1 as int] != 0 { lemma_injective(p@, b1[*$var1 as int] as int, gi); }
             }
 //@body_end 1
             proof {
